@@ -351,6 +351,11 @@ class Names:
                 a, r = sig(f.bodies[c])
                 if r.startswith("core::option::Option<") and r.endswith("file::File>") and len(a) == 1 and a[0].lstrip("&") == B:
                     cands.add(c)
+            if len(cands) > 1:
+                # the raw getter has the same signature; the helper is the one that asks the legality predicate
+                from .common import reachable_bodies
+                asks = {c for c in cands if (B + "::is_legal") in reachable_bodies(f, [c])}
+                cands = asks or cands
             return self._one("the effective en-passant helper of same_position", cands)
         return self._memo("effective_ep", go)
 
